@@ -52,9 +52,23 @@ class NodeDoc:
     kind of the e0/e1 masks (0 = Other))}; free: ids that are free xref entries; broken: {id: "array"|"int"|"parse"}
     objects that are not Node dictionaries; unlisted: ids beyond the cross-reference table"""
 
-    def __init__(self, nodes, free=(), broken=None, unlisted=()):
+    def __init__(self, nodes, free=(), broken=None, unlisted=(), holder=None, cells=()):
         self.nodes, self.free = nodes, set(free)
         self.broken, self.unlisted = dict(broken or {}), set(unlisted)
+        # holder: number of the object  << /L [ty ref ty ref …] >>  whose entries are lazily loaded references
+        # (harness type Holder: cell i = Lazy<Node<ty_i>>, as the fonts / annotations of a page); cells = [(ty, ref)]
+        self.holder, self.cells = holder, list(cells)
+
+    LAZY = 9          # program item (LAZY, i): load lazy cell i of the holder
+
+    def cells_row(self):
+        return " ".join("%d %d" % c for c in self.cells).encode()
+
+    def alone_item(self, ty, r):
+        """a program item alone: a typed get, or the load of a lazy cell (= the typed get of what it refers to)"""
+        if ty == self.LAZY:
+            return self.alone_get(*self.cells[r])
+        return self.alone_get(ty, r)
 
     @staticmethod
     def flags(n):
@@ -79,11 +93,13 @@ class NodeDoc:
                        "D": [y for (ty, r) in n["deps"] for y in (ty, Ref(r))]}
         for i, what in self.broken.items():
             objs[i] = BROKEN[what][0]
+        if self.holder:
+            objs[self.holder] = {"L": [y for (ty, r) in self.cells for y in (ty, Ref(r))]}
         return objs
 
     def build(self):
         assert len(BROKEN_PLACEHOLDER) == len(BROKEN_BYTES)
-        top = max(list(self.nodes) + list(self.free) + list(self.broken) + [3])
+        top = max(list(self.nodes) + list(self.free) + list(self.broken) + [3, self.holder or 0])
         assert all(u > top for u in self.unlisted)
         data = build_file(self.objects(), free=self.free)
         return data.replace(BROKEN_PLACEHOLDER, BROKEN_BYTES)
@@ -189,7 +205,17 @@ def split_doc(rng, selfloop=False):
     for i, (pid, what) in enumerate(parents):
         if what == "unlisted":
             nodes[pid]["deps"][1] = (nodes[pid]["deps"][1][0], top + 1)
-    return NodeDoc(nodes, free=[t_free], broken=broken, unlisted=[top + 1])
+    # a holder whose lazily loaded entries refer to: a leaf, objects with nested loads, references that fail (the
+    # cell stays empty and the next load tries again), each as several types
+    holder = top
+    cand = [leaf] + [pid for (pid, _) in parents] + [i for i in nodes if i not in (leaf,)][-6:] + [t_free, t_array]
+    cells = [(rng.randrange(3), r) for r in cand]
+    cells += [(ty, parents[0][0]) for ty in range(3)]
+    # (a number two beyond the last object: the number right after the table is answered as a free object)
+    for i, (pid, what) in enumerate(parents):
+        if what == "unlisted":
+            nodes[pid]["deps"][1] = (nodes[pid]["deps"][1][0], top + 2)
+    return NodeDoc(nodes, free=[t_free], broken=broken, unlisted=[top + 2], holder=holder, cells=cells)
 
 
 def show(a):
